@@ -1482,6 +1482,32 @@ impl Scenario for ExitContract {
             specs.push(mk(&a, &mut rng));
             kinds.push(format!("codes+cap:{l}:{cap2}"));
         }
+        if class == "fatal-midstream" {
+            // the exit-status rule is not a matter of the check modes: the same input through a view and
+            // through filtered writing (stdout / file) must also end with N when the fatal is reported
+            let mut other = |mode_parts: Vec<String>, rng: &mut Rng| {
+                let mut p = mode_parts;
+                if let Some(n) = exit_code {
+                    p.extend(s(&["-E", &n.to_string()]));
+                }
+                let mut sp = specgen::spec(im.clone(), &p, input.clone());
+                if rng.chance(4, 5) {
+                    swarm_schedule(&mut sp, rng, 300 + st.total_packets() as u64 * 12);
+                }
+                specs.push(sp);
+                kinds.push("other-mode".to_string());
+            };
+            let mut v = s(VIEW_MODES[rng.usize_below(3)]);
+            if rng.chance(1, 2) {
+                v.push("-d".into());
+            }
+            other(v, &mut rng);
+            let mut wr = Filter::Link(st.links[rng.usize_below(st.links.len())].link_id).args();
+            if rng.chance(1, 2) {
+                wr.extend(s(&["-o", "@OUT@"]));
+            }
+            other(wr, &mut rng);
+        }
         let label = format!("{class} | {} | -E {}", CHECK_MODES[mode_i].join(" "), if exit_code.is_some() { "n" } else { "absent" });
         Trial::ExitContract { specs, kinds, class: class.to_string(), exit_code, label }
     }
@@ -2845,6 +2871,28 @@ impl Scenario for StatsRt {
         if rng.chance(1, 3) {
             parts.push("-m".into());
             label.push_str(" -m");
+        }
+        // a filter in a third of the cases; in half of those the stream starts with a link of another
+        // detector system (the input statistics are taken before the filter, the ITS statistics after it)
+        if st.links.len() >= 2 && rng.chance(1, 3) {
+            let first_link = st.order.first().map(|&(l, _)| l).unwrap_or(0);
+            let others: Vec<usize> = (0..st.links.len()).filter(|&l| l != first_link).collect();
+            let sel = others[rng.usize_below(others.len())];
+            if rng.chance(1, 2) {
+                for pk in st.links[first_link].packets.iter_mut() {
+                    pk.rdh.system_id = 19; // TST
+                }
+                label.push_str(" first-link-other-system");
+            }
+            let f = match rng.below(3) {
+                0 if st.links.iter().filter(|l| l.link_id == st.links[sel].link_id).count() == 1 => {
+                    Filter::Link(st.links[sel].link_id)
+                }
+                1 => Filter::Fee(st.links[sel].fee_id),
+                _ => Filter::Stave(st.links[sel].fee_id),
+            };
+            parts.extend(f.args());
+            label.push_str(" filter");
         }
         let im = pick_input_mode(&mut rng);
         let mut pa = parts.clone();
